@@ -77,6 +77,10 @@ type Config struct {
 
 	// TTL is the time that key written with ttl will live
 	TTL time.Duration
+
+	// EventsPrefix is the prefix of the keys written with ttl.
+	// If it is empty, every key containing `/events/` is taken as a key with ttl.
+	EventsPrefix []byte
 }
 
 // Range implements Scanner interface
@@ -275,6 +279,7 @@ func (r *scanner) scan(ctx context.Context, start []byte, end []byte, revision u
 				compact:         compact,
 				tombstone:       r.config.Tombstone,
 				timeoutRevision: timeoutRevision,
+				eventsPrefix:    r.config.EventsPrefix,
 			}, store, r.coder, r.metricCli)
 
 			// run worker
@@ -337,6 +342,9 @@ type workerConfig struct {
 
 	// timeoutRevision indicate the revision that kvs with ttl were updated at is timeout
 	timeoutRevision uint64
+
+	// eventsPrefix indicate the prefix of keys with ttl
+	eventsPrefix []byte
 }
 
 func newWorker(conf workerConfig, store storage.KvStorage, coder coder.Coder, metricCli metrics.Metrics) *worker {
@@ -563,6 +571,13 @@ func (w *worker) compactKey(key []byte, rawKey []byte, rev uint64) error {
 	return err
 }
 
+func (w *worker) isKeyWithTTL(rawKey []byte) bool {
+	if len(w.eventsPrefix) > 0 {
+		return bytes.HasPrefix(rawKey, w.eventsPrefix)
+	}
+	return bytes.Contains(rawKey, []byte("/events/"))
+}
+
 func (w *worker) compactIfExpired(iter storage.Iter, rawKey []byte, revision uint64, value []byte) (isExpired bool, err error) {
 	// run compaction for object with ttl except
 	// 1. storage engine support ttl
@@ -571,7 +586,7 @@ func (w *worker) compactIfExpired(iter storage.Iter, rawKey []byte, revision uin
 		w.timeoutRevision == 0 {
 		return false, nil
 	}
-	if bytes.Contains(rawKey, []byte("/events/")) {
+	if w.isKeyWithTTL(rawKey) {
 		//? consider two type of compact now:
 		//? 1. delete directly from storage engine (use this one right now)
 		//? 2. set tombstone and delete util next compaction loop
